@@ -81,6 +81,8 @@ def gen_cases(tier, seed):
             case["cls"]["stats"] = case["cls"]["stats"][: trng.choice((0, 0, 1))]
             if case["cls"].get("right"):
                 case["cls"]["right"]["stats"] = case["cls"]["stats"]
+            if case["pack"]["ver"] in ("libatom", "subatom"):
+                case["pack"]["ver"] = "stat"  # the library's atom strategy refuses classes with statistics
         case["schedule"] = searchlib.rand_schedule(rng, iterative=case["pack"]["iterative"])
         case.update(kind="spec", id=k, N=N[tier])
         k += 1
